@@ -111,6 +111,15 @@ def run_ga(case, ctx):
     try:
         inner = make_inner(rng, D, in_sig, out_sig, record)
         ga = models.GroupAverage(inner, [np.asarray(g) for g in Gp], always, inference)
+        # multi-step history on the flags: the usual equinox idiom eqx.nn.inference_mode(model, value=...) switches the
+        # `inference` leaves; "always average" must survive it, inference-only averaging must follow it
+        import equinox as eqx
+
+        toggles = [bool(v) for v in rng.integers(0, 2, size=int(rng.integers(0, 3)))]
+        for tv in toggles:
+            ga = eqx.nn.inference_mode(ga, value=tv)
+            inference = tv
+        key["toggles"] = toggles
         x = mlgen.random_multi(rng, in_sig, D, sp, torus)
         on = always or inference
         record.clear()
@@ -173,7 +182,7 @@ def run_ga(case, ctx):
         control, on = 1.0, True
     nontrivial = (not on) or (control >= 0.05 and len(Gp) > 1)
     return result(key, viols, nontrivial, evals=evals, noise=noise, obs={"wrapper_executions": evals},
-                  hist={"kind": "ga", "D": D, "G": gname, "on": on, "square": len(set(sp)) == 1}, sample={"cfg": key, "control_defect_inner": control, "defect": noise})
+                  hist={"kind": "ga", "D": D, "G": gname, "on": on, "square": len(set(sp)) == 1, "flag_history": f"always={always},toggles={key.get('toggles')}"}, sample={"cfg": key, "control_defect_inner": control, "defect": noise})
 
 
 # ---- Climate1D -----------------------------------------------------------------------------------
